@@ -13,6 +13,7 @@ from hypothesis import strategies as st
 from vf import refmodel, specs
 from vf import strategies as S
 from vf.props import c04, c07
+from vf.props._util import changed_variables, snapshot
 
 
 @st.composite
@@ -27,7 +28,7 @@ def clip_cases(draw, convs=S.ALL_CONVS, mesh_coords_as=None, max_vars=4):
         "spec": spec,
         "geom": draw(c07.GEOM),
         "buffer": draw(st.sampled_from([0, 0, 1, 1, 2])),
-        "route": draw(st.sampled_from(["clip", "make_apply", "saved_mask_second_dataset"])),
+        "route": draw(st.sampled_from(["clip", "make_apply", "apply_twice", "saved_mask_second_dataset"])),
         "subset": draw(st.lists(st.integers(0, 7), max_size=3)),
     }
 
@@ -103,10 +104,23 @@ def run_clip(ctx, clause, case, ds, conv, geom, workdir):
         if route == "clip":
             out = conv.clip(geom, work, buffer=buffer)
             source = spec
-        elif route == "make_apply":
+        elif route in ("make_apply", "apply_twice"):
             mask = conv.make_clip_mask(geom, buffer=buffer)
+            before = snapshot(mask)
+            if route == "apply_twice":
+                # history: the same mask object is applied a second time; the result examined
+                # is the second one
+                first_dir = os.path.join(workdir, "first")
+                os.makedirs(first_dir, exist_ok=True)
+                first = conv.apply_clip_mask(mask, first_dir)
+                first.load()
+                first.close()
             out = conv.apply_clip_mask(mask, work)
             source = spec
+            touched = changed_variables(mask, before)
+            prop = clause.split(".")[0]
+            ctx.check(not touched, prop + ".mask_untouched",
+                      lambda: f"apply_clip_mask changed the caller's mask dataset: {touched}")
         else:
             mask = conv.make_clip_mask(geom, buffer=buffer)
             mask_path = os.path.join(workdir, "mask.nc")
